@@ -164,6 +164,9 @@ NEG = {"Eq": "NotEq", "NotEq": "Eq", "Lt": "GtE", "LtE": "Gt", "Gt": "LtE", "GtE
        "Is": "IsNot", "IsNot": "Is", "In": "NotIn", "NotIn": "In"}
 
 
+ITE_CONDS = {}    # repr(condition tree) -> condition tree of every conditional expression met (ite atoms carry the repr)
+
+
 def facts_of(c, pol=True):
   """Atomic facts implied by condition tree c having truth value pol."""
   k = c[0]
@@ -491,6 +494,7 @@ class Walker:
     c = self.cond(e.test, st)
     a = self.ev(e.body, st)
     b = self.ev(e.orelse, st)
+    ITE_CONDS[repr(c)] = c
     return mk("ite", P("cond", repr(c)), as_poly(a), as_poly(b))
 
   def ev_JoinedStr(self, e, st):
